@@ -8,6 +8,7 @@ peers run in Python threads, the extracted `Peer.assemble` on the same byte stre
 same scripted peers for exit status / file written / no crash."""
 import hashlib, json, os, shutil, socket, struct, tempfile, threading, time
 import lib
+from props import info_roundtrip as irt
 
 MANIFEST = dict(
     text="Machine-checked proof over a model of the peer client (frame reader, BitTorrent and extension handshakes, "
@@ -16,14 +17,22 @@ MANIFEST = dict(
          "keep-alives, and completeness for every honest BEP 3/9/10 peer (any size incl. exact multiples of 16 KiB, any id "
          "assignment, any ignorable interleaving, any trailing bytes; segmentation does not exist at stream level). Tied to the "
          "code by tables and decision shapes regenerated from src/peer/** and by scripted-peer correspondence runs through the "
-         "peer_fetch hook and the real `imdl torrent from-link`. Right level: the property quantifies over all adversarial "
+         "peer_fetch hook and the real `imdl torrent from-link`. serde's typed round trip of the Info dictionary is a concrete "
+         "model (info_norm) with a syntactic normal-form predicate (typed_normal): load-then-encode is the identity on normal "
+         "forms, whatever is written is normal, canonical and stable, what `create` writes is typed-normal (a created torrent is "
+         "fetched back byte-identically), all for every byte string. Right level: the property quantifies over all adversarial "
          "sequences and all sizes/interleavings; the tests script nine sessions.",
     ref="DESIGN.md section 5, C11",
     technique="Coq proof over a Gallina model + translator-generated tables + model/implementation correspondence run",
-    note="partial: timeouts, send errors, real TCP behaviour and the rayon fan-out are exercised only by the runs. Assumed (Section "
-         "variables, validated by the runs): serde's typed round trip of Info is a function `norm`, SHA-1 is a function. Model "
-         "deviations: integers in [2^63,2^64) in u64 header fields, bendy's 2048 nesting limit. Open finding: honest dictionaries "
-         "that the typed round trip changes (non-normal update-url) are rejected (key typed-roundtrip-changes-value).")
+    note="partial: timeouts, send errors, real TCP behaviour and the rayon fan-out are exercised only by the runs. Since X16 serde's "
+         "typed round trip of Info is concrete (Model/InfoRoundTrip.v info_norm; typed-normal is the syntactic predicate "
+         "typed_normal; c11_complete_concrete, c11_authentic_concrete, c11_created_torrents_fetch_back) and compared on every "
+         "run with the real client on >= 3000 structured dictionaries. Assumed (universally quantified, validated by the runs): the "
+         "url crate outside the fragment of Model/UrlNorm.v, SHA-1 is a function. Model deviations: integers in [2^63,2^64) in u64 "
+         "header fields, bendy's 2048 nesting limit in ignored header values. Open finding: honest dictionaries of modelled keys "
+         "that are not typed-normal (e.g. non-normal update-url, upper-case md5sum) are rejected (key typed-roundtrip-changes-value, "
+         "class c11_known_class). Small finding: `piece length` in [2^63,2^64) is accepted and written, then refused by imdl's own "
+         "strict readers (c11_reserialisation_strict_refuted).")
 
 PIECE = 16384
 HEADER = b"\x13BitTorrent protocol"
@@ -493,6 +502,18 @@ def gen_cases(ctx):
         c = honest_case(ctx, r, info=make_info(r, opt=set(), update_url=url), noise_p=0.0, cut="whole", label="honest-nonnormal-url")
         c["known"] = KNOWN_KEY
         cases.append(c)
+    # ... an md5sum in upper case (re-serialised in lower case) and `private` = 2 (refused): members of the same class
+    for mut in ("md5-upper", "private-2"):
+        info = make_info(r, multi=False, opt={"md5sum", "private"})
+        v, _ = lib.bdecode_strict(info)
+        items = dict(v[1])
+        if mut == "md5-upper":
+            items[b"md5sum"] = items[b"md5sum"].upper() if items[b"md5sum"].upper() != items[b"md5sum"] else b"ABCDEF0123456789ABCDEF0123456789"
+        else:
+            items[b"private"] = 2
+        c = honest_case(ctx, r, info=lib.bencode(("d", sorted(items.items()))), noise_p=0.0, cut="whole", label="honest-known-class-" + mut)
+        c["known"] = KNOWN_KEY
+        cases.append(c)
     # adversarial: every single fault, then sequences of 2..4 (thorough: ..6) faults
     for f in FAULTS:
         for _ in range(ctx.n(6, 40)):
@@ -538,7 +559,7 @@ def describe(case, full=False):
             "reproduce": "./check C11 --replay <this file>  (replays the scripted peer against the peer_fetch hook, the model and `imdl torrent from-link`)"}
 
 
-def judge(ctx, case, impl, model, peer, where):
+def judge(ctx, case, impl, model, peer, where, inorm=None):
     """oracle first (independent of the model), then model vs implementation"""
     kind, got = impl
     d, target = case["info"], case["target"]
@@ -565,15 +586,23 @@ def judge(ctx, case, impl, model, peer, where):
     if code == "GAVEUP":
         expect = ("ERR", None)
     elif code == "GOT":
-        if hashlib.sha1(b).digest() == target and b == d:
+        if hashlib.sha1(b).digest() == target and b == d and not inorm:
             expect = ("OK", b) if not case.get("known") else None
         else:
-            # the assembled buffer is not the typed-normal dictionary: what verify_info_dict makes of it depends on serde's
-            # typed round trip, which the model keeps abstract (`norm`); e.g. `hTtp://example.com/` or an upper-case md5sum is
-            # normalised back and legitimately accepted. The only prediction made is for `dictionary + unknown keys`; in every
-            # case the oracle above has already required that whatever was returned hashes to the infohash.
-            s = strip_unknown(b)
-            expect = ("OK", s) if (s is not None and hashlib.sha1(s).digest() == target) else None
+            # the assembled buffer is not the dictionary the magnet names: what verify_info_dict makes of it is serde's typed
+            # round trip, which the model now has concretely (X16, InfoRoundTrip.info_norm): e.g. `hTtp://example.com/` or an
+            # upper-case md5sum is normalised back and legitimately accepted. In every case the oracle above has already
+            # required that whatever was returned hashes to the infohash.
+            m = (inorm or {}).get(b)
+            if m is None:
+                s = strip_unknown(b)
+                expect = ("OK", s) if (s is not None and hashlib.sha1(s).digest() == target) else None
+            elif m["code"] == 0:
+                expect = ("OK", m["bytes"]) if hashlib.sha1(m["bytes"]).digest() == target else ("ERR", None)
+            elif m["code"] == 1:
+                expect = ("ERR", None)
+            else:
+                expect = None                      # update-url outside the modelled fragment of the url crate
     else:
         ctx.violation("model-impl-disagreement", "the model reports %s, which Properties/C11.v proves impossible" % code, info)
         return True
@@ -699,6 +728,131 @@ def judge_e2e(ctx, cases, res):
         ctx.violation("model-impl-disagreement", "from-link succeeded although no scripted peer could supply the dictionary (%s)" % label, info)
 
 
+
+# ---------------------------------------------------------------- X16: the concrete typed round trip (Model/InfoRoundTrip.v)
+
+def classify_known(ctx, cases, inorm, urls):
+    """an honest dictionary belongs to the known class iff the extracted predicate says so: made of modelled keys only and not
+    typed_normal (Properties/C11.v c11_known_class). The predicate itself is checked here against the generator (dictionaries
+    built in normal form must be typed_normal) and against this module's own reading of the round trip."""
+    for c in cases:
+        if not c["honest"]:
+            continue
+        d = c["info"]
+        m = inorm.get(d)
+        if m is None:
+            ctx.violation("infrastructure", "the extracted info_norm failed on an honest dictionary", describe(c)); continue
+        labelled = c.get("known")
+        c["known"] = KNOWN_KEY if m["known_class"] else None
+        py = irt.py_norm(d, urls)
+        py_mk = irt.py_modelled_keys_only(d)
+        info = dict(describe(c), model=dict(m, bytes=m["bytes"].hex()[:400]), oracle=(py[0], py[1].hex()[:400] if py[0] == "OK" else py[1]))
+        if m["modelled_keys"] != py_mk:
+            ctx.violation("model-impl-disagreement", "modelled_keys_only says %s, the oracle's reading of the dictionary says %s" % (m["modelled_keys"], py_mk), info)
+        if py[0] == "OK" and m["code"] != 2 and m["typed_normal"] != (py[1] == d and py_mk):
+            ctx.violation("model-impl-disagreement", "typed_normal says %s for a dictionary that the oracle's own typed round trip %s"
+                          % (m["typed_normal"], "returns unchanged" if py[1] == d else "changes"), info)
+        if labelled and not c["known"]:
+            ctx.violation("model-impl-disagreement", "a dictionary generated as a member of the known class (%s) is not in c11_known_class" % c["kind"], info)
+        if not labelled and not m["typed_normal"]:
+            ctx.violation("model-impl-disagreement", "typed_normal refuses a dictionary that the generator built in normal form (%s)" % c["kind"], info)
+        ctx.count("honest_typed_normal" if m["typed_normal"] else "honest_known_class")
+
+
+def corpus_case(d, cand):
+    target = hashlib.sha1(cand).digest()
+    parts = [("bt", bt_handshake(target)), ("ext", ext_handshake(len(d), 3))] + \
+        [("data%d" % i, data_msg(i, len(d), ch)) for i, ch in enumerate(chunks_of(d))]
+    return dict(kind="info-corpus", honest=False, info=d, target=target, ut_id=3, parts=parts, cut="whole", reactive=False)
+
+
+def run_info_corpus(ctx, corpus, inorm, urls):
+    """every dictionary of the structured corpus: model verdict + bytes, the oracle's own round trip, and the real client
+    (peer_fetch returns its re-serialisation exactly when that hashes to the infohash asked for)"""
+    t0 = time.time()
+    work = []
+    for label, d in corpus:
+        if not d:
+            continue
+        m = inorm.get(d)
+        if m is None:
+            ctx.violation("infrastructure", "the extracted info_norm failed on a corpus dictionary", {"label": label, "dict_hex": d.hex()[:2000]}); continue
+        py = irt.py_norm(d, urls)
+        cands = []
+        if m["code"] == 0:
+            cands.append(m["bytes"])
+        if py[0] == "OK" and py[1] not in cands:
+            cands.append(py[1])
+        if not cands:
+            cands.append(d)
+        work.append(dict(label=label, d=d, m=m, py=py, cands=cands, got={}))
+    jobs = [(w, c) for w in work for c in w["cands"]]
+    for b in range(0, len(jobs), 400):
+        chunk = jobs[b:b + 400]
+        _, impl = run_sessions(ctx, [corpus_case(w["d"], c) for w, c in chunk], ctx.seed + 31 * b + 5)
+        for (w, c), rep in zip(chunk, impl):
+            w["got"][c] = parse_impl(rep)
+    lib.log("C11: %d typed-round-trip sessions over %d corpus dictionaries in %.1fs" % (len(jobs), len(work), time.time() - t0))
+    for w in work:
+        d, m, py = w["d"], w["m"], w["py"]
+        ctx.cov["evaluations"] += 1
+        ctx.cov["traces_validated_against_impl"] += 1
+        # what the client's re-serialisation is, as far as the sessions tell: the candidate it answered with
+        accepted = [c for c, (kind, got) in w["got"].items() if kind == "OK"]
+        crashed = [kind for kind, _ in w["got"].values() if kind not in ("OK", "ERR")]
+        impl_view = "OK" if accepted else "ERR"
+        ctx.count("roundtrip_model_%d" % m["code"]); ctx.count("roundtrip_impl_" + impl_view); ctx.count("roundtrip_oracle_" + py[0])
+        ctx.distinct(("roundtrip", w["label"], m["code"], impl_view, m["typed_normal"], m["modelled_keys"], py[0]))
+        info = {"label": w["label"], "dict_hex": d.hex() if len(d) < 3000 else d[:1500].hex() + "...", "model": dict(m, bytes=m["bytes"].hex()[:3000]),
+                "oracle": (py[0], py[1].hex()[:3000] if py[0] == "OK" else py[1]),
+                "client": {c.hex()[:3000]: k for c, (k, _) in w["got"].items()},
+                "reproduce": "serve dict_hex from a scripted BEP 9 peer and call the peer_fetch hook with infohash sha1(<candidate>): ./check C11 --replay"}
+        if crashed:
+            ctx.violation("oracle-failure", "the client crashed (%s) on a served info dictionary (%s)" % (crashed[0], w["label"]), info); continue
+        for c, (kind, got) in w["got"].items():
+            if kind == "OK" and got != c:
+                ctx.violation("oracle-failure", "the client returned a dictionary whose SHA-1 is not the infohash asked for (%s)" % w["label"], info)
+        # model vs client
+        if m["code"] == 0:
+            k = w["got"][m["bytes"]][0]
+            if k != "OK":
+                ctx.cov["disagreements_checked"] += 1
+                ctx.violation("model-impl-disagreement", "info_norm re-serialises a %s dictionary to %d bytes, the client does not arrive at them%s"
+                              % (w["label"], len(m["bytes"]), " (it arrives at the oracle's bytes)" if accepted else ""), info)
+        elif m["code"] == 1 and accepted:
+            ctx.cov["disagreements_checked"] += 1
+            ctx.violation("model-impl-disagreement", "info_norm refuses a %s dictionary that the client accepts and re-serialises" % w["label"], info)
+        # the oracle's own reading vs the client (a defect of the oracle is reported as such, never hidden)
+        if py[0] == "OK" and w["got"][py[1]][0] != "OK":
+            ctx.violation("infrastructure" if m["code"] != 0 or m["bytes"] != py[1] else "model-impl-disagreement",
+                          "the oracle's own typed round trip of a %s dictionary is not what the client arrives at" % w["label"], info)
+        elif py[0] == "REJECT" and accepted:
+            ctx.violation("infrastructure", "the oracle's own typed round trip refuses a %s dictionary that the client accepts (%s)" % (w["label"], py[1]), info)
+        # the predicates
+        py_mk = irt.py_modelled_keys_only(d)
+        if m["modelled_keys"] != py_mk:
+            ctx.violation("model-impl-disagreement", "modelled_keys_only says %s, the oracle says %s (%s)" % (m["modelled_keys"], py_mk, w["label"]), info)
+        if m["code"] == 0 and m["typed_normal"] != (m["bytes"] == d):
+            ctx.violation("model-impl-disagreement", "typed_normal = %s but info_norm %s the dictionary (theorem c11_typed_normal_iff)"
+                          % (m["typed_normal"], "returns" if m["bytes"] == d else "changes"), info)
+        if m["code"] == 1 and m["typed_normal"]:
+            ctx.violation("model-impl-disagreement", "typed_normal holds of a dictionary info_norm refuses (theorem c11_typed_normal_fixed)", info)
+        if m["known_class"] != (m["modelled_keys"] and not m["typed_normal"]):
+            ctx.violation("model-impl-disagreement", "c11_known_class is not `modelled keys only and not typed_normal`", info)
+        # the property itself, on dictionaries made only of modelled keys (what an honest peer may serve): served = returned.
+        # Conclusive only when the sessions tell: asked for sha1(d) and refused, or a different re-serialisation was accepted
+        if py_mk:
+            ctx.count("roundtrip_modelled_keys")
+            refused = (d in w["got"] and w["got"][d][0] != "OK") or any(c != d for c in accepted)
+            if refused:
+                ctx.count("roundtrip_modelled_keys_not_returned_as_served")
+                ctx.violation("oracle-failure", "a canonical info dictionary made only of modelled keys (%s) is not returned as served by the client's typed round trip"
+                              % w["label"], info, key=KNOWN_KEY if m["known_class"] else None)
+    for w in (work[0], work[len(work) // 2], work[-1]):
+        ctx.sample({"label": w["label"], "dict": w["d"][:120].hex(), "model_code": w["m"]["code"], "typed_normal": w["m"]["typed_normal"],
+                    "client": sorted(k for k, _ in w["got"].values())})
+
+
 # ---------------------------------------------------------------- the run
 
 def run_sessions(ctx, cases, seed0):
@@ -727,6 +881,22 @@ def run(ctx):
     t0 = time.time()
     model = ctx.model(["peer_assemble %s %s" % (c["target"].hex(), lib.hexs(stream_of(c))) for c in cases])
     lib.log("C11: %d model runs in %.1fs" % (len(cases), time.time() - t0))
+    # ---- X16: serde's typed round trip, concretely: every dictionary of this run (served, assembled) and a structured corpus
+    t0 = time.time()
+    bufs = set()
+    for c, mrep in zip(cases, model):
+        bufs.add(c["info"])
+        if c.get("served"):
+            bufs.add(c["served"])
+        pmod = parse_model(mrep)
+        if pmod[0] == "GOT":
+            bufs.add(pmod[1])
+    corpus = irt.gen_structured(ctx, irt.url_corpus(ctx, ctx.n(250, 3000)))
+    inorm = irt.model_info_norm(ctx, list(bufs) + [b for _, b in corpus])
+    urls = irt.crate_urls(ctx, irt.url_texts_of(list(bufs) + [b for _, b in corpus]))
+    lib.log("C11: info_norm on %d dictionaries (%d of the sessions, %d structured) in %.1fs" % (len(inorm), len(bufs), len(corpus), time.time() - t0))
+    classify_known(ctx, cases, inorm, urls)
+    run_info_corpus(ctx, corpus, inorm, urls)
     t0 = time.time()
     peers, impl = [], []
     for b in range(0, len(cases), 400):       # batches bound the number of simulator threads alive at once
@@ -742,13 +912,13 @@ def run(ctx):
         def violation(self, *a, **k):
             self.violations.append(a)
     flagged = [k for k, (c, p, i, m) in enumerate(zip(cases, peers, impl, model))
-               if parse_model(m)[0] != "MODELFAIL" and judge(Dry(), c, parse_impl(i), parse_model(m), p, "dry")]
+               if parse_model(m)[0] != "MODELFAIL" and judge(Dry(), c, parse_impl(i), parse_model(m), p, "dry", inorm)]
     if flagged:
         again = flagged[:48]                   # many suspicious sessions are systematic, not a hiccup: replay only the first ones
         ps, im = run_sessions(ctx, [cases[k] for k in again], ctx.seed + 77777)
         ctx.count("sessions_replayed_before_reporting", len(again))
         for k, p2, i2 in zip(again, ps, im):
-            if not judge(Dry(), cases[k], parse_impl(i2), parse_model(model[k]), p2, "dry"):
+            if not judge(Dry(), cases[k], parse_impl(i2), parse_model(model[k]), p2, "dry", inorm):
                 ctx.count("sessions_not_reproduced")
                 ctx.notes.append("session %d (%s %s) looked wrong once (%s) and was fine when replayed" % (k, cases[k]["kind"], cases[k].get("faults") or "", impl[k][:40]))
             peers[k], impl[k] = p2, i2
@@ -765,7 +935,7 @@ def run(ctx):
         ctx.distinct((c["kind"], tuple(c.get("faults") or ()), len(chunks_of(c["info"])), len(c["info"]) % PIECE == 0, c["cut"], pi[0], pm[0]))
         if pm[0] == "MODELFAIL":
             ctx.violation("infrastructure", "the extracted model failed on a case: %s" % m, describe(c)); continue
-        judge(ctx, c, pi, pm, p, "peer_fetch hook")
+        judge(ctx, c, pi, pm, p, "peer_fetch hook", inorm)
     for c in (cases[0], cases[len(cases) // 3], cases[-1]):
         ctx.sample({k: v for k, v in describe(c).items() if k in ("kind", "faults", "info_len", "segmentation", "ut_metadata_id", "reactive")})
 
@@ -805,6 +975,11 @@ def run(ctx):
     for _ in range(ctx.n(24, 400)):
         e2e.append([faulty_case(ctx, r, r.sample(FAULTS, r.randrange(1, 4)))] if r.random() < 0.6 else
                    [honest_case(ctx, r, size=r.choice([None, 16384, 16385, 32768]), noise_p=0.3, reactive=r.random() < 0.5)])
+    e2e_cases = [c for cs in e2e for c in cs]
+    inorm2 = irt.model_info_norm(ctx, [c["info"] for c in e2e_cases if c["honest"] and c["info"] not in inorm])
+    inorm.update(inorm2)
+    urls.update(irt.crate_urls(ctx, [t for t in irt.url_texts_of([c["info"] for c in e2e_cases]) if t not in urls]))
+    classify_known(ctx, e2e_cases, inorm, urls)
     tmp = tempfile.mkdtemp(prefix="c11-")
     t0 = time.time()
     try:
@@ -850,8 +1025,10 @@ def run(ctx):
 
 def finish(ctx):
     ctx.assumptions += [
-        "serde's typed round trip of the Info dictionary (from_bytes::<Info> then to_bytes) is a function `norm`; a dictionary is "
-        "typed-normal when norm d = d - hypothesis of c11_complete, exercised here with dictionaries generated from the Info schema",
+        "serde's typed round trip of the Info dictionary (from_bytes::<Info> then to_bytes) is Model/InfoRoundTrip.v info_norm - modelled, "
+        "not verified: compared in this run with the real client on every dictionary of the sessions and on the structured corpus; "
+        "the url crate outside the fragment of Model/UrlNorm.v is the universally quantified `ext` (dictionaries whose update-url "
+        "lies there are counted, nothing is claimed for them)",
         "SHA-1 is a function `H` (hashlib on the oracle side, the sha1 crate in imdl)",
         "a peer that ends its stream closes (or half-closes) the connection: read timeouts are exercised only by the thorough runs",
     ]
@@ -861,9 +1038,15 @@ def finish(ctx):
              "ut_metadata request+reject at every position, segmentations {whole, 1, 2, 5, random}, eager and request-driven; "
              "adversarial: every single fault of the list in tools/props/c11.py FAULTS and random sequences of 2-4 (thorough 2-6) "
              "faults; a case is distinct by (kind, fault set, piece count, exact-multiple, segmentation, impl outcome, model outcome); "
-             "plus end-to-end from-link runs (honest, faulty, good+bad peer, no peers)",
+             "plus end-to-end from-link runs (honest, faulty, good+bad peer, no peers); typed round trip (X16): a structured corpus over "
+             "the Info schema (optional keys x both modes x 0..40 files x md5sum lower/upper/mixed/invalid x private absent/0/1/2/-1 x "
+             "normal and non-normal update-urls incl. the X10 corpus, unknown keys of every type, mistyped values under every modelled "
+             "key, mixed modes, file entries as dictionaries / sequences / with unknown keys, missing keys, non-canonical spellings), "
+             "each dictionary served to the real client with the magnet asking for the SHA-1 of the predicted re-serialisation; distinct "
+             "by (generator class, model verdict, client verdict, typed_normal, modelled_keys_only, oracle verdict)",
         trusted_base=["Coq 8.16.1 kernel (coqc), vm_compute for the computed examples", "tools/rs2v_peer.py (GenPeer)",
-                      "extraction with ExtrOcamlBasic + runner/driver.ml (peer_assemble)", "Rust hook peer_fetch + harness line protocol",
+                      "extraction with ExtrOcamlBasic + runner/driver.ml (peer_assemble, info_norm)", "Rust hooks peer_fetch, url_norm + harness line protocol",
+                      "tools/props/info_roundtrip.py (structured generator, own reading of serde's typed round trip from the Rust sources)",
                       "Python scripted peer / UDP tracker simulators and oracle in tools/props/c11.py (hashlib, lib.bdecode_strict)"],
     )
 
